@@ -275,6 +275,17 @@ func prepareGen(spec *Spec, flavours []string, genSeed uint64, genN int) *built 
 			infra("%s", e)
 		}
 	}
+	for pkg, envName := range spec.ExtraBuild {
+		bin := filepath.Join(work, "extra-"+filepath.Base(pkg))
+		cmd := exec.Command("go", "build", "-modfile="+b.modfile, "-overlay="+b.overlay, "-o", bin, pkg)
+		cmd.Dir = verifDir
+		cmd.Env = goEnv()
+		if out, err := cmd.CombinedOutput(); err != nil {
+			os.RemoveAll(work)
+			infra("build of %s failed: %v\n%s", pkg, err, out)
+		}
+		b.env = append(b.env, envName+"="+bin)
+	}
 	b.buildS = time.Since(start).Seconds()
 	return b
 }
